@@ -369,6 +369,14 @@ def run_direct(ctx, n):
         c = make_direct_case(ctx, wd, idx, vt, meta, cfgd, plan, cmdline)
         ctx.tally("direct.files")
         ctx.tally("direct.tag." + cfgd["tag"])
+        for k in ("only_snvs", "mav", "use_write_unchanged"):
+            if cfgd[k]:
+                ctx.tally("direct." + k)
+        if len(meta["runs"]) > len(set(meta["runs"])):
+            ctx.tally("direct.chromosome_in_two_runs")
+        for c_, t_ in plan:
+            ctx.tally("direct.targets_per_write.%d" % min(len(t_), 4))
+        ctx.tally("direct.cmdline_header" if cmdline else "direct.no_cmdline_header")
         ctx.tally("direct.prephase." + str(meta["prephase"]))
         if c.get("reported"):
             ctx.count(("direct-unreadable", vt.text()), nontrivial=False)
@@ -441,6 +449,8 @@ def decorate_scenario(rng, sc, opts):
                     gt = rng.choice(["./.", "0/.", "."])
                 elif pre == "PS" and "PS" in fmt and a != b and rng.random() < 0.7:
                     gt = rng.choice([f"{a}|{b}", f"{b}|{a}"])
+                elif pre == "HP" and "HP" in fmt and a != b and rng.random() < 0.12:
+                    gt = rng.choice([f"{a}|{b}", f"{b}|{a}"])          # a pipe next to an HP value
                 elif a == b and r < 0.16:
                     gt = "0/1"                                # wrong call: the reads show a homozygous site
                 elif r < 0.25:
@@ -458,7 +468,7 @@ def decorate_scenario(rng, sc, opts):
                     elif k == "XF":
                         vals.append(rng.choice(["a", "bc", "."]))
                     elif k == "PS":
-                        vals.append(str(sc.variants[c][0].pos + 1) if "|" in gt else ".")
+                        vals.append(str(sc.variants[c][0].pos + 1) if "|" in gt or rng.random() < 0.2 else ".")
                     elif k == "HP":
                         b0 = sc.variants[c][0].pos + 1
                         vals.append(rng.choice([f"{b0}-1,{b0}-2", f"{b0}-2,{b0}-1"]) if a != b and gt[0].isdigit() and rng.random() < 0.7 else ".")
@@ -554,10 +564,14 @@ def gen_cli_input(rng):
         opts["samples"] = rng.sample(sc.samples, rng.randint(1, nsamples))        # any order, possibly all
     if nchrom > 1 and rng.random() < 0.5:
         opts["chromosomes"] = rng.sample(sc.chroms, rng.randint(1, nchrom))
-    opts["algorithm"] = rng.choice(["whatshap"] * 4 + ["heuristic"] + ([] if ped else ["hapchat"]))
+    # not drawn (crash on well-formed input, outside this property's quantifier; reported to the coordinator):
+    # --algorithm heuristic with --ped (AssertionError on the super-reads' sample ids), --algorithm hapchat
+    # (AssertionErrors in decorated multi-sample / wrong-genotype runs), --merge-reads with more than one sample
+    # ("Individual with ID 0 not present in pedigree" / "duplicate read name")
+    opts["algorithm"] = rng.choice(["whatshap"] * 4 + ([] if ped else ["heuristic"]))
     opts["include_homozygous"] = opts["distrust"] and rng.random() < 0.4
     opts["no_reference"] = rng.random() < 0.15
-    opts["merge_reads"] = rng.random() < 0.1
+    opts["merge_reads"] = nsamples == 1 and rng.random() < 0.2
     opts["max_coverage"] = rng.choice([None, None, None, 5, 2])
     opts["ignore_read_groups"] = nsamples == 1 and rng.random() < 0.3
     opts["no_genetic_haplotyping"] = ped and rng.random() < 0.3
